@@ -1090,6 +1090,9 @@ var engineCorpus = []corpusCase{
 	{name: "menu-refilled-after-halt", nodes: [][3]string{{"root", "MOUT first 1; HALT; LOAD flag8 0; MOUT second 2; MOUT back 0; HALT; CATCH denied 8 1; INCMP _ 0; INCMP foo 2", "root"}, {"denied", "MOUT back 0; HALT; INCMP _ 0", "denied"}, {"foo", "MOUT back 0; HALT; INCMP _ 0", "foo"}, {"_catch", "MOUT back 0; HALT; INCMP _ 0", "catch"}},
 		menu: []kv{{"first_menu", "First"}, {"first_menu_nor", "Forste"}, {"second_menu", "Second"}, {"second_menu_nor", "Andre"}, {"back_menu", "Back"}, {"back_menu_nor", "Tilbake"}},
 		fn: map[string][]eFres{"flag8": []eFres{{Content: "x"}, {Content: "x", Set: []uint32{8}}}}, cfg: eCfg{FlagCount: 1, Lang: "nor"}, inputs: []string{"", "1", "2", "0", "1", "7", "0", "0"}},
+	// a session blocked by CROAK, then refused inputs, then an accepted one
+	{name: "blocked-then-refused", nodes: [][3]string{{"root", "LOAD aa 0; HALT; CROAK 8 1; INCMP foo 1", "root"}, {"foo", "HALT; INCMP _ 0", "foo"}, {"_catch", "HALT; INCMP _ *", "catch"}},
+		fn: map[string][]eFres{"aa": []eFres{{Content: "v", Set: []uint32{8}}}}, cfg: eCfg{FlagCount: 1}, inputs: []string{"", "1", "!bad", " ", "1", "!bad", "1"}},
 	{name: "percent-in-menu", nodes: [][3]string{{"root", "MOUT sale 1; MOUT salt 2; MOUT plain 3; MSINK; MNEXT nxt 11; MPREV prv 22; HALT; INCMP > 11; INCMP < 22; INCMP foo *", "root"}, {"foo", "MOUT sale 0; HALT; INCMP _ 0", "foo"}, {"_catch", "HALT; INCMP _ *", "catch"}},
 		menu: []kv{{"sale_menu", "20% sale"}, {"salt_menu", "salt %s and %d"}}, cfg: eCfg{FlagCount: 1, Out: 36}, inputs: []string{"", "11", "22", "x", "0"}},
 	{name: "reload-after-next", nodes: [][3]string{{"root", "LOAD sk 0; MAP sk; LOAD cnt 10; RELOAD cnt; MAP cnt; MNEXT nxt 11; MPREV prv 22; HALT; INCMP > 11; INCMP < 22", "r {{.cnt}} {{.sk}}"}, {"_catch", "MOUT back 0; HALT; INCMP _ 0", "catch"}},
